@@ -131,4 +131,95 @@ theorem lsSweep_fixpoint (A : List Nat) (g : List Node) (hA : ∀ d ∈ A, 0 < d
         linarith
       · exact h2 u hu k hk
 
+/-! ### RILS and MaxPlus: the pair they return is always (in-range action, its evaluateGraph) -/
+
+/-- the invariant both maintain -/
+def Truthful (A : List Nat) (g : List Node) (st : List Nat × Rat) : Prop := Valid A st.1 ∧ st.2 = evalGraph A st.1 g
+
+theorem lsResult_truthful (A : List Nat) (g : List Node) (hA : ∀ d ∈ A, 0 < d) (orders : List (List Nat)) (s : List Nat)
+    (ho : ∀ o ∈ orders, ∀ v ∈ o, v < A.length) (hs : Valid A s) : Truthful A g (lsResult A g orders s) :=
+  ⟨lsRun_valid A g hA orders s ho hs, rfl⟩
+
+theorem rilsTrials_truthful (A : List Nat) (g : List Node) (hA : ∀ d ∈ A, 0 < d) :
+    ∀ (trials : List (List Nat × List (List Nat))) (st : List Nat × Rat),
+      (∀ t ∈ trials, Valid A t.1 ∧ ∀ o ∈ t.2, ∀ v ∈ o, v < A.length) → Truthful A g st →
+        Truthful A g (rilsTrials A g trials st)
+  | [], _, _, h => h
+  | (s, orders) :: ts, st, ht, h => by
+    have hts : ∀ t ∈ ts, Valid A t.1 ∧ ∀ o ∈ t.2, ∀ v ∈ o, v < A.length := fun t h' => ht t (List.mem_cons_of_mem _ h')
+    simp only [rilsTrials]
+    split
+    · exact rilsTrials_truthful A g hA ts st hts h
+    · apply rilsTrials_truthful A g hA ts _ hts
+      have hr := lsResult_truthful A g hA orders s (ht (s, orders) (List.mem_cons_self ..)).2 (ht (s, orders) (List.mem_cons_self ..)).1
+      split
+      · exact hr
+      · exact h
+
+/-- **ReusingIterativeLocalSearch returns what it claims** — first call or a call reusing the stored action on a graph
+    updated with a new rule set (same key sets), every outcome of the random engine -/
+theorem rils_claims (A : List Nat) (struct rules : List Rule) (reuse : Option (List Nat))
+    (first : List Nat × List (List Nat)) (trials : List (List Nat × List (List Nat)))
+    (hA : ∀ d ∈ A, 0 < d) (hwf : ∀ r ∈ rules, r.WF A) (hsub : ∀ r ∈ rules, ∃ s ∈ struct, s.keys = r.keys)
+    (hreuse : ∀ a, reuse = some a → Valid A a)
+    (hfirst : Valid A first.1 ∧ ∀ o ∈ first.2, ∀ v ∈ o, v < A.length)
+    (htrials : ∀ t ∈ trials, Valid A t.1 ∧ ∀ o ∈ t.2, ∀ v ∈ o, v < A.length) :
+    let g := lsUpdate A rules (lsMake A struct [])
+    let r := rilsRun A g reuse first trials
+    Valid A r.1 ∧ r.2 = payoffL rules r.1 ∧ r.2 ≤ bruteMax A rules := by
+  intro g r
+  have ht : Truthful A g r := by
+    show Truthful A g (rilsRun A g reuse first trials)
+    unfold rilsRun
+    cases reuse with
+    | some a => exact rilsTrials_truthful A g hA trials _ htrials ⟨hreuse a rfl, rfl⟩
+    | none => exact rilsTrials_truthful A g hA trials _ htrials (lsResult_truthful A g hA first.2 first.1 hfirst.2 hfirst.1)
+  have he := evalGraph_reuse A struct rules r.1 hwf ht.1 hsub
+  exact ⟨ht.1, by rw [ht.2]; exact he, by rw [ht.2, he]; exact bruteMax_ge A rules _ ht.1⟩
+
+theorem mpTrack_inv (A : List Nat) (g : List Node) : ∀ (cands : List (List Nat)) (st : List Nat × Option Rat),
+    (∀ c ∈ cands, Valid A c) → Valid A st.1 → (∀ v, st.2 = some v → v = evalGraph A st.1 g) →
+      Valid A (mpTrack A g cands st).1 ∧ ∀ v, (mpTrack A g cands st).2 = some v → v = evalGraph A (mpTrack A g cands st).1 g
+  | [], _, _, h1, h2 => ⟨h1, h2⟩
+  | c :: cs, st, hc, h1, h2 => by
+    have hcs : ∀ c' ∈ cs, Valid A c' := fun c' h => hc c' (List.mem_cons_of_mem _ h)
+    have hcv := hc c (List.mem_cons_self ..)
+    simp only [mpTrack]
+    split
+    · exact mpTrack_inv A g cs st hcs h1 h2
+    · cases hst : st.2 with
+      | none => exact mpTrack_inv A g cs _ hcs hcv (fun v hv => by simp at hv; exact hv.symm)
+      | some rv =>
+        simp only
+        split
+        · exact mpTrack_inv A g cs _ hcs hcv (fun v hv => by simp at hv; exact hv.symm)
+        · exact mpTrack_inv A g cs st hcs h1 h2
+
+/-- **MaxPlus returns what it claims** — whatever joint actions the message passing proposes (each component is the
+    arg-max of a row with `A[a]` columns, hence in range): in-range action, reported value = its true payoff ≤ optimum;
+    with no iteration at all it is the all-zero action with its true payoff -/
+theorem mp_claims (A : List Nat) (struct rules : List Rule) (cands : List (List Nat))
+    (hA : ∀ d ∈ A, 0 < d) (hwf : ∀ r ∈ rules, r.WF A) (hsub : ∀ r ∈ rules, ∃ s ∈ struct, s.keys = r.keys)
+    (hc : ∀ c ∈ cands, Valid A c) :
+    let g := lsUpdate A rules (lsMake A struct [])
+    let r := mpRun A g cands
+    Valid A r.1 ∧ r.2 = payoffL rules r.1 ∧ r.2 ≤ bruteMax A rules := by
+  intro g r
+  have hz : Valid A (List.replicate A.length 0) := by
+    have := valid_zeros A hA
+    have e : A.map (fun _ => 0) = List.replicate A.length 0 := by
+      clear this hc hsub hwf hA
+      induction A with
+      | nil => rfl
+      | cons d ds ih => simp [List.replicate_succ, ih]
+    rw [← e]; exact this
+  obtain ⟨h1, h2⟩ := mpTrack_inv A g cands (List.replicate A.length 0, none) hc hz (fun v hv => by simp at hv)
+  have hr : Valid A r.1 ∧ r.2 = evalGraph A r.1 g := by
+    simp only [r, mpRun]
+    cases hm : (mpTrack A g cands (List.replicate A.length 0, none)).2 with
+    | none => exact ⟨h1, rfl⟩
+    | some v => exact ⟨h1, h2 v hm⟩
+  have he := evalGraph_reuse A struct rules r.1 hwf hr.1 hsub
+  exact ⟨hr.1, by rw [hr.2]; exact he, by rw [hr.2, he]; exact bruteMax_ge A rules _ hr.1⟩
+
 end AITB.VE
